@@ -58,6 +58,26 @@ func coldPools() {
 	runtime.GC()
 }
 
+// drainPools is the cheap variant for the script kinds: take objects out of the memory and arena
+// pools until a pristine one comes out (what an empty pool hands out), and drop them all.
+func drainPools() {
+	for i := 0; i < 256; i++ {
+		if m := vm.NewMemory(); cap(vm.VerifC28MemBacking(m)) == 0 && vm.VerifC28MemLastGas(m) == 0 {
+			break
+		}
+	}
+	for i := 0; i < 256; i++ {
+		raw := vm.VerifC28NewArena().Raw()
+		pristine := len(raw) == 1025
+		for j := 0; pristine && j < len(raw); j++ {
+			pristine = raw[j].IsZero()
+		}
+		if pristine {
+			break
+		}
+	}
+}
+
 func catchPanic(f func()) (panicked bool) {
 	defer func() {
 		if recover() != nil {
@@ -121,7 +141,7 @@ func runArena(l SL) Result {
 		}
 	}
 
-	coldPools()
+	drainPools()
 	ar := vm.VerifC28NewArena()
 	if dirt > 0 { // leave values of an "earlier execution" in the arena
 		var fs []*vm.Stack
@@ -467,7 +487,7 @@ func runMem(l SL) Result {
 			fails = append(fails, fmt.Sprintf(f, a...))
 		}
 	}
-	coldPools()
+	drainPools()
 	if dirt > 0 { // an "earlier frame" dirties an object and frees it into the pool
 		d := vm.NewMemory()
 		d.Resize(uint64(dirt))
